@@ -748,7 +748,11 @@ impl Req {
                 .collect::<Vec<_>>()
                 .join(","),
             self.mac
-        ) + &if self.mac_head != 0 { format!("h{:08x}", self.mac_head) } else { String::new() }
+        ) + &if self.mac_head != 0 {
+            format!("h{:08x}", self.mac_head)
+        } else {
+            String::new()
+        }
     }
 
     pub(super) fn parse(s: &str) -> Option<Req> {
@@ -1240,7 +1244,11 @@ pub(super) fn build_with(
     if r.mac > 0 {
         let n = r.mac as usize;
         if n >= 4 {
-            let head = if r.mac_head != 0 { r.mac_head } else { 0x0000_002A }; // key id 42
+            let head = if r.mac_head != 0 {
+                r.mac_head
+            } else {
+                0x0000_002A
+            }; // key id 42
             let off = out.len();
             out.extend_from_slice(&head.to_be_bytes());
             let fill = tagged(0x3E, K_MAC, n - 4);
@@ -1248,7 +1256,8 @@ pub(super) fn build_with(
             // RFC 7822 framing (NTPv4): a trailer of more than 24 bytes is not a MAC; if it starts
             // with a well-formed extension-field header it *is* one more extension field
             let (ty, l) = ((head >> 16) as u16, (head & 0xFFFF) as usize);
-            let is_field = r.ver == 4 && r.mac_head != 0 && n > 24 && l >= 4 && l % 4 == 0 && l <= n;
+            let is_field =
+                r.ver == 4 && r.mac_head != 0 && n > 24 && l >= 4 && l % 4 == 0 && l <= n;
             if r.mac_head != 0 {
                 len_offsets.push(off + 2);
             }
